@@ -152,12 +152,43 @@ func genHval(r *rand.Rand, kind int) sx.V {
 	case 16:
 		return sx.List(k, sx.Big(randBig(r, []int{0, 1, 2048, 4095, 4096}[r.Intn(5)])))
 	case 18:
-		return sx.List(k, sx.Big(randBig(r, 2048)), sx.Big(randBig(r, 2047)), sx.Big(randBig(r, r.Intn(2049))))
+		if r.Intn(2) == 0 {
+			return sx.List(k, sx.Big(randBig(r, 2048)), sx.Big(randBig(r, 2047)), sx.Big(randBig(r, r.Intn(2049))))
+		}
+		// S with a zero low byte and short announced lengths: the shape in which a byte can move between S and T
+		x := randBig(r, 8+r.Intn(2000))
+		sv := new(big.Int).Lsh(x, 8)
+		tv := randBig(r, r.Intn(2041))
+		d := sx.List(k, sx.Big(randBig(r, 2048)), sx.Big(sv), sx.Big(tv))
+		c19Hints[d.String()] = [2]int{minBytes(sv), minBytes(tv) + r.Intn(2)}
+		return d
 	}
 	panic("kind")
 }
 
 const nKinds = 19
+
+// c19Hints: announced byte lengths of the S and T Nats of a Pedersen value (kind 18), keyed by the printed description.
+// The announced length is an implementation detail of saferith (what a peer's CBOR encoding chose); the typed value is
+// (N, S, T) and its stream must not depend on it.  Carried in replay files.
+var c19Hints = map[string][2]int{}
+
+func hintsFor(seqs ...[]sx.V) map[string][2]int {
+	out := map[string][2]int{}
+	for _, s := range seqs {
+		for _, v := range s {
+			if h, ok := c19Hints[v.String()]; ok {
+				out[v.String()] = h
+			}
+		}
+	}
+	if len(out) == 0 {
+		return nil
+	}
+	return out
+}
+
+func minBytes(z *big.Int) int { return (z.BitLen() + 7) / 8 }
 
 func natOf(z *big.Int, bits int) *saferith.Nat { return new(saferith.Nat).SetBig(z, bits) }
 
@@ -241,7 +272,11 @@ func goValue(v sx.V) interface{} {
 		if n.Sign() == 0 {
 			n = big.NewInt(1)
 		}
-		return pedersen.New(arith.ModulusFromN(saferith.ModulusFromNat(natOf(n, n.BitLen()))), natOf(a[1].Z, 2048), natOf(a[2].Z, 2048))
+		sb, tb := 2048, 2048
+		if h, ok := c19Hints[v.String()]; ok && h[0] >= minBytes(a[1].Z) && h[1] >= minBytes(a[2].Z) {
+			sb, tb = 8*h[0], 8*h[1]
+		}
+		return pedersen.New(arith.ModulusFromN(saferith.ModulusFromNat(natOf(n, n.BitLen()))), natOf(a[1].Z, sb), natOf(a[2].Z, tb))
 	}
 	panic("kind")
 }
@@ -286,6 +321,18 @@ func relatedPairs(r *rand.Rand, l []sx.V) (out [][]sx.V, shapes []string) {
 	}
 	for i := range l {
 		ki := l[i].L[0].AsInt()
+		if ki == 18 {
+			// a byte moves from the end of S to the front of T (only the announced lengths make that possible)
+			sv, tv := l[i].L[2].Z, l[i].L[3].Z
+			if h, ok := c19Hints[l[i].String()]; ok && sv.BitLen() > 8 && new(big.Int).And(sv, big.NewInt(255)).Sign() == 0 && h[1] < 256 {
+				d := sx.List(l[i].L[0], l[i].L[1], sx.Big(new(big.Int).Rsh(sv, 8)), l[i].L[3])
+				c19Hints[d.String()] = [2]int{h[0] - 1, h[1] + 1}
+				_ = tv
+				c := cp()
+				c[i] = d
+				out, shapes = append(out, c), append(shapes, "field-byte-shift")
+			}
+		}
 		if b, ok := bytesOf(l[i]); ok {
 			// retag
 			for _, k2 := range append(byteKinds, 7) {
@@ -486,6 +533,7 @@ type c19Replay struct {
 	GoB   string `json:"go_digest_b,omitempty"`
 	Model string `json:"model,omitempty"`
 	What  string `json:"what"`
+	Hints map[string][2]int `json:"announced_lengths,omitempty"`
 }
 
 // modelStream asks the model for the absorbed stream of a sequence.
@@ -525,7 +573,7 @@ func (c *ctx) c19CheckSeq(vals []sx.V, class string) (gd []byte, ms []byte, ok b
 		}
 		c.res.Violate("correspondence", "C19/stream-mismatch/kind="+kind,
 			"model stream hashed with BLAKE3 differs from hash.Sum() (or error status differs)",
-			c19Replay{SeqA: seqString(min), GoA: hex.EncodeToString(gd), Model: hex.EncodeToString(ms), What: "stream correspondence"})
+			c19Replay{SeqA: seqString(min), GoA: hex.EncodeToString(gd), Model: hex.EncodeToString(ms), What: "stream correspondence", Hints: hintsFor(min)})
 	}
 	return gd, ms, agree
 }
@@ -580,7 +628,7 @@ func runC19(c *ctx) {
 				}
 				c.res.Violate("property", "C19/digest-collision/"+shapes[i],
 					"two different typed-value sequences give the same transcript digest",
-					c19Replay{Shape: shapes[i], SeqA: seqString(s), SeqB: seqString(s2), GoA: hex.EncodeToString(gd), GoB: hex.EncodeToString(gd2), What: "digest collision by framing"})
+					c19Replay{Shape: shapes[i], SeqA: seqString(s), SeqB: seqString(s2), GoA: hex.EncodeToString(gd), GoB: hex.EncodeToString(gd2), What: "digest collision by framing", Hints: hintsFor(s, s2)})
 			}
 		}
 	}
@@ -695,6 +743,9 @@ func c19Replay_(c *ctx) {
 	if err := readJSON(c.replay, &rp); err != nil {
 		c.res.Note("cannot read replay: %v", err)
 		return
+	}
+	for k, v := range rp.Hints {
+		c19Hints[k] = v
 	}
 	a, err := sx.Parse(rp.SeqA)
 	if err != nil {
